@@ -5,6 +5,7 @@
 EXTENDS News, Json
 
 CONSTANTS MaxDepth, MaxArts, MaxSteps, GenDepth,
+          NNames, \* 2 or 3 item names
           NTexts, \* how many different titles (1..3) and bodies (1..2) a post can carry
           Ops,    \* the step kinds enabled in this configuration
           Thin    \* TRUE: few argument variants per step kind (keeps random walks productive)
@@ -13,9 +14,14 @@ VARIABLES hist    \* the steps taken so far (the script)
 
 mcvars == <<vars, hist>>
 
-X == << <<120, 1>> >>     \* "x"
-Y == << <<121, 1>> >>     \* "y"
-Names == {X, Y}
+(* Item names are opaque to the model, but not to an implementation: the names of the generated scripts are related -
+   two that differ only in letter case and one that is a proper prefix of both up to case - and occur as siblings
+   and at different depths (the seeded generator of vh-news draws further such families: case variants, prefixes,
+   Mac-Roman high bytes, Unicode case folding). *)
+X == << <<67, 1>>, <<97, 1>>, <<116, 1>> >>     \* "Cat"
+Y == << <<99, 1>>, <<97, 1>>, <<116, 1>> >>     \* "cat"
+Z == << <<67, 1>>, <<97, 1>> >>                 \* "Ca"
+Names == IF NNames >= 3 THEN {X, Y, Z} ELSE {X, Y}
 U1 == << <<97, 1>> >>     \* "a"
 U2 == << <<98, 2>> >>     \* "bb"
 T1 == << <<116, 1>> >>    \* "t"
